@@ -1012,6 +1012,27 @@ def native_method_call(I, name, recv, args, kw):
                     I.path.assume(z3.Length(z) == ln)
                     return SSeq('bytes', [('s', z)], s.taint)
             return seq_lower(SSeq('bytes', s.chunks, s.taint))
+        if name == 'decode' and kind == 'bytes' and args and args[0] == 'ascii' and \
+                any(c[0] == 's' and c[2][1] > 127 for c in seq_of(recv).chunks):
+            # bytes of unknown length: either every byte is ASCII (the text has the same code points:
+            # the chunks are carried over with their element range narrowed to 0..127) or some byte is
+            # not and UnicodeDecodeError is raised
+            s = seq_of(recv)
+            if I.path.choose(2, "ascii-decodable") == 1:
+                I.raise_py(UnicodeDecodeError, 'ascii', b'', 0, 1, 'ordinal not in range(128)')
+            chunks = []
+            for c in s.chunks:
+                if c[0] == 'u':
+                    for e in c[1]:
+                        if isinstance(e, int):
+                            if e >= 128:
+                                raise _pyvc().Infeasible()
+                        else:
+                            I.path.assume(e < 128)
+                    chunks.append(c)
+                else:
+                    chunks.append(('s', c[1], (c[2][0], min(c[2][1], 127))))
+            return seq_lower(SSeq('str', chunks, s.taint))
         if name == 'decode' and kind == 'bytes':
             s = seq_of(recv)
             conj = []
